@@ -274,7 +274,14 @@ func runHierarchy(tag string, ents []entity, profiles []*Profile) int {
 		if e.json {
 			put(e.name+".json", jsonText(e.cfg.tree()))
 		} else {
-			put(e.name+".yaml", yamlOf(e.cfg.tree()))
+			text := yamlOf(e.cfg.tree())
+			if len(text)%5 == 0 {
+				// the same file as saved by an editor on Windows: CRLF line ends
+				text = strings.ReplaceAll(text, "\n", "\r\n")
+			} else if len(text)%5 == 1 {
+				text = "# written by hand\n\n" + text + "\n\n# end\n" // comments and blank lines
+			}
+			put(e.name+".yaml", text)
 		}
 		if e.artifact != nil {
 			m[e.name+".pem"] = &fstest.MapFile{Data: e.artifact, Mode: 0644, ModTime: t0.Add(time.Minute)}
